@@ -217,7 +217,14 @@ func genSources(r *rand.Rand) sourceCfg {
 
 func genTargets(r *rand.Rand) map[string]*receiver.Recv {
 	t := map[string]*receiver.Recv{}
-	if r.Intn(4) != 0 {
+	switch r.Intn(6) {
+	case 0:
+	case 1:
+		// a configured default that is not the implicit one
+		t["default"] = &receiver.Recv{Type: "poll", Data: []byte(`{"group":"blue"}`)}
+	case 2:
+		t["default"] = &receiver.Recv{Type: "http", Data: []byte(`{"url":"http://default-worker/x"}`)}
+	default:
 		t["default"] = &receiver.Recv{Type: "poll", Data: []byte(`{"group":"default"}`)}
 	}
 	if r.Intn(2) == 0 {
@@ -245,6 +252,7 @@ func mkWorker(r *rand.Rand, col *colAIO, met *metrics.Metrics, targets map[strin
 	cfg := &sender.Config{Size: 1}
 	names := keysOf(targets)
 	sort.Strings(names)
+	r.Shuffle(len(names), func(i, j int) { names[i], names[j] = names[j], names[i] }) // the place of "default" in the list must not matter
 	for _, n := range names {
 		cfg.Targets = append(cfg.Targets, sender.TargetConfig{Name: n, Type: targets[n].Type, Data: targets[n].Data})
 	}
@@ -612,7 +620,7 @@ func runStream(r *rand.Rand, met *metrics.Metrics, rep *vh.Report) *caseOut {
 
 // pollProps: a wrongly resolved poll address is also a failure of the poll transport's addressing (C18)
 func pollProps(recv string) string {
-	if strings.Contains(recv, "poll") {
+	if strings.Contains(recv, "poll") || strings.Contains(recv, "default") {
 		return "C19,C18"
 	}
 	return "C19"
